@@ -269,6 +269,26 @@ func checkEncodeDecode(c *core.Ctx, msg any, minor int, label string) bool {
 	if !ok {
 		return false
 	}
+	// the message handed over BY VALUE (MarshalTTLV(msg) with the structure itself, as the library's own vector tests
+	// do) is gated like the message handed over by pointer
+	{
+		var byPtr, byVal []byte
+		if p, v, st := core.Guard(func() {
+			byPtr = ttlv.MarshalTTLV(msg)
+			byVal = ttlv.MarshalTTLV(reflect.ValueOf(msg).Elem().Interface())
+		}); p {
+			c.Violation(core.PanicSig(v, st), fmt.Sprintf("encoding a message by value panicked: %v", v), map[string]any{"case": label, "stack": st})
+			return false
+		}
+		c.Count("messages_encoded_by_value", 1)
+		if !bytes.Equal(byPtr, byVal) {
+			got, _ := wire.Parse(byVal)
+			want, _ := wire.Parse(byPtr)
+			d := wire.DiffD(want, got)
+			c.Violation(fmt.Sprintf("C05:encode@1.%d:by-value:%s:%s", minor, d.Kind, c01.Where(d)), fmt.Sprintf("the message encoded by value for version 1.%d differs from the same message encoded by pointer: %s in %s", minor, d.Detail, c01.Where(d)), map[string]any{"case": label})
+			return false
+		}
+	}
 	// the same gate holds whatever the encoding: the XML and JSON documents, read by the harness's own
 	// readers, must carry exactly the layout valid at this version
 	exp, err := refmodel.Tree(msg, minor)
@@ -511,7 +531,7 @@ func Spec() *core.Spec {
 			"and the full 1.4 encoding with rewritten header version decoded; plus a diff of the version= annotations present in the tree against the pin. " +
 			"16 goroutines encoding messages for different versions at the same moment; sequences of 2-4 messages of different versions through one encoder (appended, or cleared in between; three encodings); distinct = distinct expected layout shapes",
 		Assumptions: []string{"/verif/ref/version_gates.json is the pinned reading of KMIP 1.0-1.4 for the 61 fields; a field gated by the specification but unknown to both the library and the pin is invisible"},
-		Required:    []string{"messages", "decode_side_checks", "text_encoding_checks", "matrix.populated.present", "matrix.populated.absent", "matrix.unpopulated", "annotations_compared", "sequence_messages", "sequence_messages.appended", "concurrent_encodes"},
+		Required:    []string{"messages", "decode_side_checks", "text_encoding_checks", "matrix.populated.present", "matrix.populated.absent", "matrix.unpopulated", "annotations_compared", "sequence_messages", "sequence_messages.appended", "concurrent_encodes", "messages_encoded_by_value"},
 		// a data race whose innermost frames are the encoder's version-gating code means the gate of one message is
 		// decided by the state of another: reported as a violation (other race reports print as diagnostics only)
 		RaceVerdict: func(r core.RaceReport) (string, bool) {
